@@ -95,6 +95,30 @@ def _rename(mid, name, new, contexts, expect, extra=()):
     return M(mid, U, eds[0][1], eds[0][2], expect, edits=eds[1:] + list(extra))
 
 
+UN_RW_TEST = ("                if not (given_rw_uri.startswith(ALLEGED_READONLY_PREFIX)\n"
+              "                        or given_rw_uri.startswith(ALLEGED_IMMUTABLE_PREFIX)):")
+UN_RO_TEST = ("                if (given_ro_uri.startswith(ALLEGED_READONLY_PREFIX) or\n"
+              "                    given_ro_uri.startswith(ALLEGED_IMMUTABLE_PREFIX)):")
+FS_PREFIX_BLOCK = ("    if s.startswith(ALLEGED_IMMUTABLE_PREFIX):\n"
+                   "        can_be_mutable = can_be_writeable = False\n"
+                   "        s = s[len(ALLEGED_IMMUTABLE_PREFIX):]\n"
+                   "    elif s.startswith(ALLEGED_READONLY_PREFIX):\n"
+                   "        can_be_writeable = False\n"
+                   "        s = s[len(ALLEGED_READONLY_PREFIX):]\n")
+
+
+def fs_prefix_tuple(outer="(ALLEGED_IMMUTABLE_PREFIX, ALLEGED_READONLY_PREFIX)", inner="ALLEGED_IMMUTABLE_PREFIX",
+                    clear="            can_be_mutable = False\n"):
+    """from_string's prefix handling with one tuple test, told apart inside."""
+    return ("    if s.startswith(%s):\n"
+            "        can_be_writeable = False\n"
+            "        if s.startswith(%s):\n"
+            "%s"
+            "            s = s[len(ALLEGED_IMMUTABLE_PREFIX):]\n"
+            "        else:\n"
+            "            s = s[len(ALLEGED_READONLY_PREFIX):]\n") % (outer, inner, clear)
+
+
 MUTANTS = [
     # ---- C16.1 diminishing constructors
     M("ssk-readonly-gets-writekey", U, "return ReadonlySSKFileURI(self.readkey, self.fingerprint)",
@@ -335,6 +359,45 @@ MUTANTS = [
       "                node = UnknownNode(given_ro_uri=readcap or None, given_rw_uri=writecap or None,\n", None),
     M("benign-bigcap-by-branches", NM, "        bigcap = writecap or readcap\n",
       "        if writecap:\n            bigcap = writecap\n        else:\n            bigcap = readcap\n", None),
+    # ---- `X.startswith((P, Q))` is `X.startswith(P) or X.startswith(Q)`: true edge one of them, false edge neither
+    M("benign-unknown-rw-prefix-test-tuple", K, UN_RW_TEST,
+      "                if not given_rw_uri.startswith((ALLEGED_READONLY_PREFIX, ALLEGED_IMMUTABLE_PREFIX)):", None),
+    M("benign-unknown-ro-prefix-test-tuple", K, UN_RO_TEST,
+      "                if given_ro_uri.startswith((ALLEGED_IMMUTABLE_PREFIX, ALLEGED_READONLY_PREFIX)):", None),
+    M("benign-unknown-both-prefix-tests-tuple", K, UN_RW_TEST,
+      "                if not given_rw_uri.startswith((ALLEGED_READONLY_PREFIX, ALLEGED_IMMUTABLE_PREFIX)):", None,
+      edits=[(K, UN_RO_TEST, "                if given_ro_uri.startswith((ALLEGED_READONLY_PREFIX, ALLEGED_IMMUTABLE_PREFIX)):")]),
+    M("benign-unknown-rw-prefix-tuple-hoisted", K, UN_RW_TEST,
+      "                alleged = (ALLEGED_READONLY_PREFIX, ALLEGED_IMMUTABLE_PREFIX)\n"
+      "                if not given_rw_uri.startswith(alleged):", None),
+    M("benign-unknown-imm-test-one-tuple", K,
+      "                if given_ro_uri.startswith(ALLEGED_IMMUTABLE_PREFIX):\n                    self.ro_uri = given_ro_uri\n",
+      "                if given_ro_uri.startswith((ALLEGED_IMMUTABLE_PREFIX,)):\n                    self.ro_uri = given_ro_uri\n", None),
+    M("benign-strip-ro-test-tuple-with-excluded-member", K,      # 'imm.' was excluded by the `if` before
+      "    elif ro_uri.startswith(ALLEGED_READONLY_PREFIX):\n        return",
+      "    elif ro_uri.startswith((ALLEGED_READONLY_PREFIX, ALLEGED_IMMUTABLE_PREFIX)):\n        return", None),
+    M("benign-from-string-prefix-tuple-then-told-apart", U, FS_PREFIX_BLOCK, fs_prefix_tuple(), None),
+    M("unknown-rw-prefix-tuple-test-inverted", K, UN_RW_TEST,
+      "                if given_rw_uri.startswith((ALLEGED_READONLY_PREFIX, ALLEGED_IMMUTABLE_PREFIX)):", "C16.12"),
+    M("unknown-rw-prefix-tuple-test-only-in-imm-ctx", K, UN_RW_TEST,
+      "                if deep_immutable and not given_rw_uri.startswith((ALLEGED_READONLY_PREFIX, ALLEGED_IMMUTABLE_PREFIX)):",
+      "C16.12"),
+    M("unknown-imm-ctx-keeps-ro-prefixed-cap-tuple", K,          # wrong member: 'ro.' is not enough in an immutable context
+      "                if given_ro_uri.startswith(ALLEGED_IMMUTABLE_PREFIX):\n                    self.ro_uri = given_ro_uri\n",
+      "                if given_ro_uri.startswith((ALLEGED_IMMUTABLE_PREFIX, ALLEGED_READONLY_PREFIX)):\n"
+      "                    self.ro_uri = given_ro_uri\n", "C16.6"),
+    M("unknown-both-slots-imm-test-tuple-wrong-member", K,
+      "            elif given_ro_uri.startswith(ALLEGED_IMMUTABLE_PREFIX):\n                # Strange corner case",
+      "            elif given_ro_uri.startswith((ALLEGED_READONLY_PREFIX,)):\n                # Strange corner case", "C16.8"),
+    M("from-string-prefix-tuple-told-apart-by-wrong-member", U, FS_PREFIX_BLOCK,
+      fs_prefix_tuple(inner="ALLEGED_READONLY_PREFIX"), ["C16.5", "C16.13"]),
+    M("from-string-prefix-tuple-imm-does-not-clear", U, FS_PREFIX_BLOCK, fs_prefix_tuple(clear=""), "C16.5"),
+    M("from-string-prefix-tuple-one-cut-for-both", U, FS_PREFIX_BLOCK,
+      "    if s.startswith((ALLEGED_IMMUTABLE_PREFIX, ALLEGED_READONLY_PREFIX)):\n"
+      "        can_be_mutable = can_be_writeable = False\n"
+      "        s = s[len(ALLEGED_READONLY_PREFIX):]\n", "C16.13"),
+    M("from-string-prefix-tuple-misses-imm", U, FS_PREFIX_BLOCK,
+      fs_prefix_tuple(outer="(ALLEGED_READONLY_PREFIX,)"), "C16.5"),
     # ---- vanished anchor
     M("vanish-node-cache", NM, "                self._node_cache[memokey] = node  # note: WeakValueDictionary\n", "                pass\n", "ANALYSIS-ERROR"),
     M("vanish-wrap-dirnode-cap", U, "def wrap_dirnode_cap(filecap):", "def wrap_dirnode_capX(filecap):", "ANALYSIS-ERROR"),
